@@ -39,27 +39,48 @@ Lemma minimal_valid_mut :
   (forall e G, (forall b, In b (cexpr G e) -> al b = true) -> vexpr al (toS G) e = true) /\
   (forall s G, (forall b, In b (cstmt G s) -> al b = true) -> vstmt al (toS G) s = true).
 Proof.
-  apply expr_stmt_mind; intros; cbn [vexpr vstmt]; cbn [cexpr cstmt] in *;
-    repeat (apply andb_true_iff; split);
-    try (apply ref_ok_toS; inapp);
-    try (match goal with IH : forall G, _ -> vexpr al (toS G) ?e = true |- vexpr al (toS _) ?e = true => apply IH; inapp end);
-    try (match goal with IH : forall G, _ -> vstmt al (toS G) ?e = true |- vstmt al (toS _) ?e = true => apply IH; inapp end);
-    auto.
-  - (* EFun *)
+  apply expr_stmt_mind; intros; cbn [cexpr cstmt] in *.
+  - reflexivity.
+  - cbn [vexpr]. apply ref_ok_toS; inapp.
+  - cbn [vexpr]. apply andb_true_iff; split. apply ref_ok_toS; inapp. apply H; inapp.
+  - cbn [vexpr]. apply andb_true_iff; split. apply H; inapp. apply H0; inapp.
+  - cbn [vexpr]. apply ref_ok_toS; inapp.
+  - enough (E : vstmt al (push_decls al (block_decls body) (push_vars al (var_decls (Some x) body)
+                 ((x, kind_of al pb) :: sforeign (toS G)))) body = true) by exact E.
     rewrite <- toS_cross.
     change ((x, kind_of al pb) :: toS (bcross G)) with (toS ((x, (pb, false)) :: bcross G)).
     rewrite <- toS_vars, <- toS_decls. apply H. auto.
-  - (* SFunDecl *)
+  - cbn [vexpr]. apply andb_true_iff; split. apply H; inapp. apply H0; inapp.
+  - cbn [vexpr]. apply andb_true_iff; split. apply H; inapp. apply H0; inapp.
+  - cbn [vexpr]. apply andb_true_iff; split. apply andb_true_iff; split. apply H; inapp. apply H0; inapp. apply H1; inapp.
+  - cbn [vexpr]. apply andb_true_iff; split. apply H; inapp. apply H0; inapp.
+  - cbn [vexpr]. apply andb_true_iff; split. apply H; inapp. apply H0; inapp.
+  - cbn [vexpr]. apply ref_ok_toS; inapp.
+  - reflexivity.
+  - cbn [vstmt]. apply andb_true_iff; split. apply H; inapp. apply H0; inapp.
+  - cbn [vstmt]. apply H; inapp.
+  - cbn [vstmt]. apply H; inapp.
+  - cbn [vstmt]. apply andb_true_iff; split. apply ref_ok_toS; inapp. apply H; inapp.
+  - cbn [vstmt]. apply andb_true_iff; split. apply ref_ok_toS; inapp. apply H; inapp.
+  - cbn [vstmt]. apply andb_true_iff; split. apply ref_ok_toS; inapp. apply H; inapp.
+  - enough (E : ref_ok (toS G) f && vstmt al (push_decls al (block_decls body) (push_vars al (var_decls (Some x) body)
+                 ((x, kind_of al pb) :: sforeign (toS G)))) body = true) by exact E.
+    apply andb_true_iff; split. apply ref_ok_toS; inapp.
     rewrite <- toS_cross.
     change ((x, kind_of al pb) :: toS (bcross G)) with (toS ((x, (pb, false)) :: bcross G)).
-    rewrite <- toS_vars, <- toS_decls. apply H. auto.
-  - (* SBlock *)
+    rewrite <- toS_vars, <- toS_decls. apply H. inapp.
+  - enough (E : vstmt al (push_decls al (block_decls s) (toS G)) s = true) by exact E.
     rewrite <- toS_decls. apply H. auto.
-  - change ((x, kind_of al b) :: toS G) with (toS ((x, (b, false)) :: G)). apply H. inapp.
-  - change ((x, kind_of al b) :: toS G) with (toS ((x, (b, false)) :: G)). apply H0. inapp.
-  - change ((x, kind_of al b) :: toS G) with (toS ((x, (b, false)) :: G)). apply H1. inapp.
-  - change ((x, kind_of al b) :: toS G) with (toS ((x, (b, false)) :: G)). apply H2. inapp.
-  - change ((x, kind_of al b) :: toS G) with (toS ((x, (b, false)) :: G)). apply H0. inapp.
+  - cbn [vstmt]. apply andb_true_iff; split. apply andb_true_iff; split. apply H; inapp. apply H0; inapp. apply H1; inapp.
+  - cbn [vstmt]. apply andb_true_iff; split. apply H; inapp. apply H0; inapp.
+  - enough (E : vexpr al (toS ((x, (b, false)) :: G)) init && vexpr al (toS ((x, (b, false)) :: G)) cond &&
+                vexpr al (toS ((x, (b, false)) :: G)) upd && vstmt al (toS ((x, (b, false)) :: G)) body = true) by exact E.
+    apply andb_true_iff; split. apply andb_true_iff; split. apply andb_true_iff; split.
+    apply H; inapp. apply H0; inapp. apply H1; inapp. apply H2; inapp.
+  - cbn [vstmt]. apply H; inapp.
+  - cbn [vstmt]. apply H; inapp.
+  - enough (E : vstmt al (toS G) s1 && vstmt al (toS ((x, (b, false)) :: G)) s2 = true) by exact E.
+    apply andb_true_iff; split. apply H; inapp. apply H0; inapp.
 Qed.
 End Min.
 
